@@ -72,6 +72,7 @@ def cases() -> Any:
         store_prefill=st.sampled_from([None, None, 1, 2, 3]),
         warmup=st.sampled_from([False, False, True]),
         reused_mw=st.sampled_from([False, False, True]),
+        positional=st.sampled_from([False, False, True]),
         # the worker's wall clock is set back 5 s during this attempt (1-based; None: steady clock) - NTP step, VM resume
         clock_back=st.sampled_from([None, None, None, 1, 2, 3]),
         fail_kind=st.sampled_from(["ValueError", "ValueError", "KeyError", "MyBase", "CancelledError", "SystemExit", "EmptyBatchError", "TaskiqResultTimeoutError", "SendTaskError", "TaskRejectedError", "ResultGetError", "BadStrError"]),
@@ -199,7 +200,10 @@ def run_case(c: Dict[str, Any]) -> Outcome:
         if c.get("subclass"):
             # a project-wide subclass that only inherits the hooks (e.g. to change constructor defaults)
             mw_cls = type("AppRetryMiddleware", (SimpleRetryMiddleware,), {"__doc__": "inherits on_error"})
-        the_mw = mw_cls(default_retry_count=c["dflt_count"], default_retry_label=c["dflt_label"], no_result_on_retry=c["nror"])
+        if c.get("positional"):
+            the_mw = mw_cls(c["dflt_count"], c["dflt_label"], c["nror"])       # documented parameter order, given positionally
+        else:
+            the_mw = mw_cls(default_retry_count=c["dflt_count"], default_retry_label=c["dflt_label"], no_result_on_retry=c["nror"])
         if c.get("reused_mw"):
             # the same middleware object was attached to another broker before (a module-level instance shared by a test broker
             # and the real one, a broker rebuilt after reconfiguration): it serves the broker it was added to last
